@@ -15,15 +15,16 @@ driver is asked the same question (batched).  Compared:
   * exceptions (type and message);
   * the same for a SECOND request through the same transport object (plug-in state);
   * the wire view: `request.headers.get_list(name)` of the request httpx built vs `wireLookup`;
-  * the plug-ins alone on request_args with/without "headers"/"params"/"cookies" keys.
+  * the plug-ins alone on request_args with/without "headers"/"params"/"cookies" keys;
+  * `merge_headers` (core/auth/base.py) alone on dicts with case-variant names vs `dictUpdateCI`.
 Assumption shared with the model: the plug-in objects inside a composite are distinct objects.
 
 oracle(): defect classes expected on the unchanged tree (Lean `_counterexample` theorems exist for them):
-  header-case-variant-not-overridden   Pog.C17.header_precedence_counterexample(_auth)
   apikey-query-dropped                 Pog.C17.apikey_query_cookie_dropped_counterexample / _in_composite
   apikey-cookie-dropped                idem
-Classes that must stay empty: header-last-writer-wrong, apikey-header-missing, apikey-bad-location-no-error,
-  passthrough-changed, unexpected-exception.
+Classes that must stay empty: header-case-variant-not-overridden (F27a, repaired: Pog.C17.header_precedence holds for
+  every input, the former witnesses are Pog.C17.header_precedence_former_witness(_auth)), header-last-writer-wrong,
+  apikey-header-missing, apikey-bad-location-no-error, passthrough-changed, unexpected-exception.
 """
 from __future__ import annotations
 
@@ -402,6 +403,32 @@ async def _run(seed: int, scale: float, driver: str) -> dict:
         comparisons += 1
         if r != m:
             disagree("plugin alone", [s, ra], m, r)
+    # 4. merge_headers alone: names from the pool with case variants, repeated spellings allowed in `new`
+    try:
+        from pyopenapi_gen.core.auth.base import merge_headers
+    except ImportError:
+        merge_headers = None
+        disagree("merge_headers", "import pyopenapi_gen.core.auth.base.merge_headers", "dictUpdateCI", "no such function")
+    mcases = []
+    if merge_headers is not None:
+        for _ in range(n_plugin):
+            mcases.append((rnd_pairs(rng, NAMES, 6), rnd_pairs(rng, NAMES, 6)))
+        mreal = []
+        for d, e in mcases:
+            target = dict(map(tuple, d))
+            merge_headers(target, dict(map(tuple, e)))
+            mreal.append(pairs(target))
+        mmodel = drive(driver, [{"f": "mergeHeaders", "a": [d, e]} for d, e in mcases])
+        for (d, e), r, m in zip(mcases, mreal, mmodel):
+            comparisons += 1
+            if r != m:
+                disagree("merge_headers alone", [d, e], m, r)
+            low = [k.lower() for k, _ in d]
+            if len(set(low)) < len(low):
+                bump("merge_headers: target with case-variant names")
+            if {k.lower() for k, _ in d} & {k.lower() for k, _ in e}:
+                bump("merge_headers: overlapping names")
+    dist["merge_headers-alone calls"] = len(mcases)
     dist["transport configurations"] = len(cfgs)
     dist["hand-picked"] = len(hand)
     dist["all subsets/orders of the five kinds"] = len(orders)
@@ -425,7 +452,7 @@ async def _run(seed: int, scale: float, driver: str) -> dict:
                  "OAuth2 refresh tables, with/without caller params/cookies); each is sent TWICE through one real "
                  "transport and compared with the model (headers as ordered pairs, params/cookies/json kwargs, "
                  "exception type+message), plus httpx's case-insensitive header view vs wireLookup, plus the plug-ins "
-                 "alone.  Non-trivial = distinct configuration whose first request was sent with a NON-EMPTY headers "
+                 "alone, plus merge_headers alone.  Non-trivial = distinct configuration whose first request was sent with a NON-EMPTY headers "
                  "dict, i.e. defaults, per-request headers, auth or bearer_token actually changed the outgoing headers."),
         "samples": samples,
         "distribution": dist,
@@ -449,8 +476,8 @@ O_KEYNAMES = ["api_key", "X-Key", "sid2", "token"]
 O_PNAMES = ["q", "page", "sort"]
 O_CNAMES = ["sid", "theme"]
 
-EXPECTED_CLASSES = ["header-case-variant-not-overridden", "apikey-query-dropped", "apikey-cookie-dropped"]
-OTHER_CLASSES = ["header-last-writer-wrong", "apikey-header-missing", "apikey-bad-location-no-error",
+EXPECTED_CLASSES = ["apikey-query-dropped", "apikey-cookie-dropped"]
+OTHER_CLASSES = ["header-case-variant-not-overridden", "header-last-writer-wrong", "apikey-header-missing", "apikey-bad-location-no-error",
                  "passthrough-changed", "unexpected-exception"]
 
 
